@@ -448,9 +448,14 @@ def rd_eq(w, ev, slot, t, ref):
 def rd_text(w, ev, slot, t, ref):
     """serialisers used as read accessors (content checked by the probes)"""
     import datetime
-    which = ev.get('which', 0) % 3
+    which = ev.get('which', 0) % 4
     try:
-        if which == 0:
+        if which == 3:
+            md = ref.md[0]
+            keys = sorted({k for d in (md or []) for k in d}) + ['absent-key']
+            t.to_tsv(header_key=keys[ev.get('i', 0) % len(keys)],
+                     header_value='H', metadata_formatter=str)
+        elif which == 0:
             t.to_tsv()
         elif which == 1:
             t.to_json('sim', creation_date=datetime.datetime(2020, 1, 1))
